@@ -72,6 +72,20 @@ def refine_demo():
     if out["good"] != 0 or out["bad"] == 0:
         fail("Refine.tla verdicts %s" % out)
     print("selftest: Refine.tla accepts CLC;LDA;ADC;STA and rejects the same code without CLC (%d failing behaviours)" % out["bad"])
+    # pair mode with the protected-access log: the second variant has lost a protected load of a plain variable; the final states agree
+    P = lambda op, syn, a=0: dict(op=op, syn=syn, a=a, t=0, p=1)
+    full = [I("LDA", "plain", 0x82), I("STA", "plain", 0x81), P("LDA", "plain", 0x81), I("RTS", "none")]
+    lost = [I("LDA", "plain", 0x82), I("STA", "plain", 0x81), I("RTS", "none")]
+    res = {}
+    for name, xio in (("withlog", True), ("nolog", False)):
+        t = dict(id=name, vt=vt, fs={}, body=[], fuel=1, obs=["a", "b"], regions=[dict(lo=0x80, hi=0xFF, kind="ram", delta=0)],
+                 variants=[dict(name="O0", code=full, entry=1), dict(name="O1", code=lost, entry=1)], tmp=0x80, prefix=False, cycdiff=-1, xio=xio, sem=False, pair=True,
+                 inputs=[dict(inp=dict(a=0, b=7, X=0, Y=0), ex={}, bound=50)])
+        mms, cut, r = refine.run_tcases("self_x" + name, [t])
+        res[name] = len(mms)
+    if res["withlog"] == 0 or res["nolog"] != 0:
+        fail("Refine.tla protected-access log: %s" % res)
+    print("selftest: Refine.tla (pair, xio) rejects a variant that lost a protected load of a plain variable and accepts it when the log is not asked for")
 
 
 def branchfix_demo():
